@@ -2,8 +2,8 @@
 Require Extraction.
 Require Import ExtrOcamlBasic.
 From Coq Require Import ZArith.
-From Verif Require Import Latch.Model.
+From Verif Require Import Latch.Model Latch.Slot.
 Extraction Language OCaml.
 Extraction "latch_model.ml"
-  init_state exec acquire release acquire_slot release_slot recycle_slot gen_lock key_at complete client_okb
+  init_state exec acquire release acquire_slot release_slot recycle_slot gen_lock key_at complete client_okb slot_id round_pow2
   Z.of_N. (* Z.of_N only so that the shared common.ml (which mentions type z) compiles *)
